@@ -105,6 +105,12 @@ def check(ctx):
     wm = mod.func("_wrap_masked")
     ok = bool(find("ainds = tuple(range(a.ndim))[::-1]", wm)) and bool(find("vinds = tuple(range(value.ndim))[::-1]", wm)) and bool(find("oinds = max(ainds, vinds, key=len)", wm))
     ctx.ob("SIB.wrap-masked.indices", wm, "ainds and vinds are both reversed ranges (NumPy broadcasting aligns trailing axes)", ok, "" if ok else "value's axes are bound to the wrong axes of `a` when value has 2+ dimensions")
+    # ---------------- masked concatenate: "all chunks share one fill value" is decided by VALUE equality that treats nan == nan
+    cat_ = ctx.model.module("dask/array/backends.py").func("_concatenate")
+    uq = find("fill_values = np.unique(fill_values)", cat_)
+    st_ = find("out.fill_value = fill_values[0]", cat_)
+    ok = len(uq) == 1 and len(st_) == 1 and dominates(cat_, uq[0][0], st_[0][0]) and any(eqv(e, "len(fill_values) == 1") and pol for e, pol in cfg_of(cat_).facts(st_[0][0]))
+    ctx.ob("ALG.ma-concat.fill-value", cat_, "_concatenate: np.unique(fill_values) (nan counts once) decides whether the common fill value is copied", ok, "" if ok else "a Python set keeps one entry per nan object: a nan fill value shared by all chunks is dropped and filled() returns 1e20")
 
 
 VARIANTS = [
